@@ -1,0 +1,16 @@
+//go:build verif
+
+package utils
+
+// VerifC07MUnescape exposes the percent-decoder of data: URIs.
+func VerifC07MUnescape(s []byte) ([]byte, error) { return unescape(s) }
+
+// VerifC07MParseDataURL exposes parseDataURL (url must start with "data:").
+func VerifC07MParseDataURL(url []byte) (mime string, isBase64 bool, charset string, hasCharset bool, payload []byte, err error) {
+	d, err := parseDataURL(url)
+	if err != nil {
+		return "", false, "", false, nil, err
+	}
+	charset, hasCharset = d.params["charset"]
+	return d.mimeType, d.isBase64, charset, hasCharset, d.data, nil
+}
